@@ -410,7 +410,7 @@ def evaluate(ctx, st, m, txt, opts, cases):
 def correspond(ctx, st, m, txt, opts, cases):
     """K leg: the Lean wrappers applied to the raw run observed on C must predict every wrapper output"""
     mlines = []; meta = []
-    COST = 4e6
+    COST = 4e5 if ctx.quick else 4e6      # list-model cost estimate of one line (chunks x octets)
     def add(c, key, cout, ml, cost):
         if cost > COST: st.k_skipped_cost += 1; return
         mlines.append(ml); meta.append((c, key, cout))
@@ -649,12 +649,14 @@ def replay(ctx, path):
     b.cleanup()
 
 
-def pick_values(ctx, vals, fixed):
-    """quick tier, boundary module: all small values, two large ones"""
+def pick_values(ctx, tn, vals, fixed):
+    """quick tier, boundary module: the small values, one large one (the largest too for BOs)"""
     if not (fixed and ctx.quick): return vals
+    if tn.startswith(("BI", "BJ")):
+        return vals if len(vals) <= 4 else [vals[0], vals[1], vals[len(vals) // 2], vals[-1]]
     small = [v for v in vals if len(repr(v)) < 1500]
     big = [v for v in vals if len(repr(v)) >= 1500]
-    return small[:9] + big[:1] + big[-1:]
+    return small[:6] + big[:1] + (big[-1:] if tn == "BOs" else [])
 
 
 def run(ctx):
@@ -676,7 +678,7 @@ def run(ctx):
         items = []
         nbuf_omit = 0
         for n, t in m["types"]:
-            vals = pick_values(ctx, fixed[n] if fixed is not None else vg.values(t, nvals), fixed is not None)
+            vals = pick_values(ctx, n, fixed[n] if fixed is not None else vg.values(t, nvals), fixed is not None)
             for v in vals:
                 items.append((n, genmod.val_sexp(t, v, env), "valid", True, set()))
             # (d) one planted defect at every position of one (thorough: two) base values
